@@ -328,3 +328,45 @@ Print Assumptions C09J_registered_has_object.
 Print Assumptions C09J_closed_has_nothing.
 Print Assumptions C09J_ids_below_counter.
 Print Assumptions C09J_publishers_name_registered.
+
+(* (3) What doReconnect leaves, exactly (from any state satisfying JInv, so after any history: C09J_reconnect_exact_run):
+   the gateway answers and mcu.publishers is empty; the gateway's rooms are, in the order of mcu.clients and without
+   repetition, exactly one per client that was registered, is a publisher and whose "create" was not refused
+   (recreated), its handles are the MCU's own handle followed by the same list -- so nothing else is there;
+   mcu.clients afterwards is exactly the registered publishers (every registered subscriber has closed itself and its
+   listener was told SubscriberClosed); and per publisher registered afterwards: "create" not refused -- open, handle
+   and room live, exactly one handle and one room at the gateway; "create" refused -- open and registered with a
+   stale handle and room number and nothing at the gateway. *)
+Theorem C09J_reconnect_exact : forall st fail, JInv st ->
+  let st' := fst (reconnect st fail) in
+  reachable st' = true /\ m_pubs st' = [] /\
+  g_handles st' = 0 :: g_rooms st' /\
+  g_rooms st' = filter (recreated fail st) (m_clients st) /\ NoDup (g_rooms st') /\
+  (forall c, In c (m_clients st') <-> In c (m_clients st) /\ is_sub_id st c = false) /\
+  (forall c, In c (m_clients st') ->
+     exists x', get_obj st' c = Some x' /\ c_kind x' = Pub /\ c_closed x' = false /\
+       if mem_key (ckey x') fail
+       then c_handle x' = HStale /\ c_room x' = HStale /\ ~ In c (g_handles st') /\ ~ In c (g_rooms st')
+       else c_handle x' = HLive /\ c_room x' = HLive /\ countN c (g_handles st') = 1 /\ countN c (g_rooms st') = 1) /\
+  snd (reconnect st fail) = map ESubClosed (filter (is_sub_id st) (m_clients st)).
+Proof. exact reconnect_exact. Qed.
+Theorem C09J_reconnect_exact_run : forall ops fail,
+  let st := run ops in let st' := run (ops ++ [OReconnect fail]) in
+  reachable st' = true /\ g_handles st' = 0 :: g_rooms st' /\
+  g_rooms st' = filter (recreated fail st) (m_clients st) /\ NoDup (g_rooms st') /\
+  (forall c, In c (m_clients st') <-> In c (m_clients st) /\ is_sub_id st c = false).
+Proof.
+  intros ops fail st st'.
+  assert (E : st' = fst (reconnect st fail)).
+  { unfold st'. rewrite run_snoc. apply step_st_reconnect. }
+  rewrite E. destruct (reconnect_exact st fail (reachable_inv ops)) as (H1 & _ & H3 & H4 & H5 & H6 & _). auto.
+Qed.
+(* whatever the gateway holds after doReconnect is the MCU's handle or belongs to a client registered after it *)
+Theorem C09J_reconnect_nothing_else : forall st fail c, JInv st ->
+  let st' := fst (reconnect st fail) in
+  (In c (g_handles st') -> c = 0 \/ In c (m_clients st')) /\ (In c (g_rooms st') -> In c (m_clients st')).
+Proof. exact reconnect_nothing_else. Qed.
+
+Print Assumptions C09J_reconnect_exact.
+Print Assumptions C09J_reconnect_exact_run.
+Print Assumptions C09J_reconnect_nothing_else.
